@@ -132,8 +132,9 @@ func (f *Frame) instr(in ssa.Instruction) {
 	case *ssa.Alloc:
 		et := x.Type().Underlying().(*types.Pointer).Elem()
 		obj := f.allocObj()
-		if !x.Heap {
-			// go/ssa: the address of this variable never escapes its function
+		if f.u.W.privateAlloc(x) {
+			// the address of this variable never escapes its function (go/ssa's own analysis, or:
+			// every address derived from it is only loaded from / stored to)
 			if f.u.privateObjs == nil {
 				f.u.privateObjs = map[int64]bool{}
 			}
@@ -160,6 +161,20 @@ func (f *Frame) instr(in ssa.Instruction) {
 			return
 		}
 		f.checkWrite(a[0], a[1], tb.BV(64, int64(len(v))), "store", x.Pos())
+		if len(f.u.noEscapeObjs) > 0 && !f.spec && hasRefs(x.Val.Type()) {
+			// ownership: the function must not keep a reference to the caller's buffer
+			for _, i := range refSlots(x.Val.Type()) {
+				if i >= len(v) {
+					continue
+				}
+				for _, k := range f.u.noEscapeObjs {
+					prop := tb.Or(tb.Eq(k, tb.BV(32, 0)), tb.Not(tb.Eq(v[i], k)))
+					if !prop.IsTrue() {
+						f.u.addObl("escape", f.anchorFor("store"), f.cur.reach, prop, f.pos(x.Pos()), "a reference to the caller's buffer is stored (the callee must keep its own copy)")
+					}
+				}
+			}
+		}
 		f.storeTo(a[0], a[1], v)
 	case *ssa.FieldAddr:
 		p := f.val(x.X)
@@ -316,6 +331,35 @@ func (f *Frame) loadFacts(t types.Type, v []*Term) {
 			f.u.addFact(fact)
 		}
 	}
+	if len(f.u.noEscapeObjs) > 0 {
+		// nothing in the initial memory refers to the caller's buffer (assumption of the noescape clause)
+		for _, i := range refSlots(t) {
+			if i >= len(v) || v[i].hasBV {
+				continue
+			}
+			n := 0
+			var walk func(c *Term, x *Term)
+			walk = func(c *Term, x *Term) {
+				if n > 32 {
+					return
+				}
+				switch {
+				case x.Op == "ite":
+					walk(tb.And(c, x.Args[0]), x.Args[1])
+					walk(tb.And(c, tb.Not(x.Args[0])), x.Args[2])
+				case isBaseRead(x):
+					// (cells of a havocked memory too: every store of the function is checked not to
+					// store the buffer, callees that do not receive it cannot reach it, so by induction
+					// over the execution no cell ever holds a reference to it)
+					n++
+					for _, k := range f.u.noEscapeObjs {
+						f.u.addFact(tb.Implies(c, tb.Or(tb.Eq(k, tb.BV(32, 0)), tb.Not(tb.Eq(x, k)))))
+					}
+				}
+			}
+			walk(tb.True(), v[i])
+		}
+	}
 	if !pure {
 		// a read that the memory layers turned into a case distinction: every alternative that
 		// is a cell of the initial memory is an input-world object under its own path condition
@@ -343,6 +387,16 @@ func (f *Frame) loadFacts(t types.Type, v []*Term) {
 			}
 		}
 	}
+}
+
+// isBaseRead: a read of an uninterpreted base memory (initial, havocked by a call, havocked at a loop head)
+func isBaseRead(x *Term) bool {
+	for _, p := range []string{"uf:m0_", "uf:hv_", "uf:lp_", "uf:lpml_"} {
+		if len(x.Op) > len(p) && x.Op[:len(p)] == p {
+			return true
+		}
+	}
+	return false
 }
 
 // refSlots lists the slot indices of a value of type t that hold object ids.
@@ -417,6 +471,16 @@ func (f *Frame) indexAddr(x *ssa.IndexAddr) {
 		f.oblig("nopanic:index", "index", tb.Ult(idx, base[2]), x.Pos(), "slice index out of range")
 		es := L.Size(t.Elem())
 		f.set(x, []*Term{base[0], tb.Add(base[1], tb.Mul(idx, tb.BV(64, es)))})
+		// an element of a slice of structs is a struct of that type: it cannot overlap values of
+		// unrelated types (the map header, say)
+		if _, isStruct := t.Elem().Underlying().(*types.Struct); isStruct && !f.spec {
+			pv := f.val(x)
+			for _, fact := range f.u.registerPtr(t.Elem(), pv[0], pv[1]) {
+				if !fact.hasBV {
+					f.u.addFact(tb.Implies(f.cur.reach, fact))
+				}
+			}
+		}
 	case *types.Pointer:
 		at := t.Elem().Underlying().(*types.Array)
 		f.nonNil(base[0], "indexaddr", x.Pos())
@@ -921,7 +985,79 @@ func (f *Frame) unboxValue(t types.Type, iv []*Term) []*Term {
 }
 
 func (f *Frame) makeInterface(x *ssa.MakeInterface) {
+	if ghostArgOnly(x) {
+		// an argument of a verif* intrinsic (verifSeparate(a, b), verifAssigns(...)): the intrinsic
+		// looks through the conversion at the value itself, nothing is allocated for it
+		tb := f.tb()
+		f.set(x, []*Term{tb.BV(32, f.u.W.typeTag(x.X.Type())), tb.BV(32, 0), tb.BV(64, 0)})
+		return
+	}
 	f.set(x, f.boxValue(x.X.Type(), f.val(x.X)))
+}
+
+// ghostArgOnly: the interface value is only stored into the argument array of a variadic call
+// of a verif* intrinsic (or passed to one directly).
+func ghostArgOnly(x *ssa.MakeInterface) bool {
+	refs := x.Referrers()
+	if refs == nil || len(*refs) == 0 {
+		return false
+	}
+	isVerifCall := func(c *ssa.Call) bool {
+		fn, ok := c.Call.Value.(*ssa.Function)
+		if !ok {
+			return false
+		}
+		name := fn.Name()
+		if o := fn.Origin(); o != nil {
+			name = o.Name()
+		}
+		switch name {
+		case "verifAssigns", "verifFresh", "verifDisjoint", "verifSameSlice", "verifSeparate", "verifUnchanged":
+			return true
+		}
+		return false
+	}
+	for _, r := range *refs {
+		switch u := r.(type) {
+		case *ssa.DebugRef:
+		case *ssa.Call:
+			if !isVerifCall(u) {
+				return false
+			}
+		case *ssa.Store:
+			ia, ok := u.Addr.(*ssa.IndexAddr)
+			if !ok || u.Val != x {
+				return false
+			}
+			al, ok := ia.X.(*ssa.Alloc)
+			if !ok {
+				return false
+			}
+			// the array is sliced and the slice handed to a verif* call, nothing else
+			okUse := false
+			for _, ar := range *al.Referrers() {
+				switch v := ar.(type) {
+				case *ssa.IndexAddr, *ssa.DebugRef:
+				case *ssa.Slice:
+					for _, sr := range *v.Referrers() {
+						if c, isCall := sr.(*ssa.Call); isCall && isVerifCall(c) {
+							okUse = true
+						} else if _, isDbg := sr.(*ssa.DebugRef); !isDbg {
+							return false
+						}
+					}
+				default:
+					return false
+				}
+			}
+			if !okUse {
+				return false
+			}
+		default:
+			return false
+		}
+	}
+	return true
 }
 
 func (f *Frame) typeAssert(x *ssa.TypeAssert) {
